@@ -1,5 +1,6 @@
 import XmppModel.Model.Sasl
 import XmppModel.Lemmas.Sasl
+import XmppModel.Lemmas.SaslGate
 import XmppModel.Generated.C03
 /-!
 # C03 — the authenticated bit is only set by a completed, accepted SASL exchange
@@ -880,35 +881,88 @@ example :
     r.authn = false ∧ r.err = .panicked ∧ r.sent = [.challenge [1]] := by
   decide
 
+/-! ### the conditions of `<failure/>` -/
+
+/-- **Every `<failure/>` ends the exchange unauthenticated, with the peer's failure as the
+error** (probed: both roles × the eleven defined conditions, an unknown child, no child — 26
+complete sessions): never `Authn`, the error is the decoded SASL failure and names the
+condition (`none` for what is not a defined condition). -/
+theorem C03_gen_failure_conds :
+    (Generated.C03.saslFailureConds.map fun t =>
+      t.length == 26 && t.all fun r =>
+        r.2.2.1 == false && r.2.2.2.1 == true && r.2.2.2.2 == failureText r.2.1) = some true := by
+  decide
+
+/-- the table covers every defined condition on both roles -/
+theorem C03_gen_failure_conds_complete :
+    (Generated.C03.saslFailureConds.map fun t =>
+      definedConds.all fun c => t.any (fun r => r.1 == "cli" && r.2.1 == c) && t.any (fun r => r.1 == "srv" && r.2.1 == c))
+      = some true := by
+  decide
+
+/-- **What the receiving side writes when it refuses is a defined condition** — whatever the
+configuration, the state of the exchange and the element: every `<failure/>` in the reaction of
+`negotiateServer` carries one of four conditions, all defined, so the initiating side of this
+library (and any conforming one) reads it as the failure it is (`C03_gen_failure_conds`,
+`C03_client_failure_never_read`). -/
+theorem C03_server_failures_defined (cfg : List (String × Mech)) (cur : Option SCur) (ev : SEv)
+    (r : SRes) (h : sevent cfg cur ev = .stop r) (c : String) (hc : SSent.failure c ∈ r.sent) :
+    c ∈ serverFailureConds ∧ definedConds.contains c = true := by
+  have key : c ∈ serverFailureConds := by
+    have hs : ∀ (name : String) (mech : Mech) (hist : List Bytes) (p : Payload) (r : SRes),
+        sstep name mech hist p = .stop r → SSent.failure c ∈ r.sent → c ∈ serverFailureConds := by
+      intro name mech hist p r h hc
+      unfold sstep at h
+      split at h
+      · cases h; simp [sfail] at hc
+      · split at h <;> first
+          | (cases h; simp [sfail] at hc; try (subst hc; decide))
+          | (cases h)
+    cases ev with
+    | failure => simp [sevent, sfail] at h; subst h; simp at hc
+    | space => simp [sevent, sfail] at h; subst h; simp at hc
+    | abort => simp [sevent, sfail] at h; subst h; simp at hc; subst hc; decide
+    | other => simp [sevent, sfail] at h; subst h; simp at hc; subst hc; decide
+    | otherNs => simp [sevent, sfail] at h; subst h; simp at hc; subst hc; decide
+    | auth name p =>
+      simp only [sevent] at h
+      split at h
+      · cases h; simp [sfail] at hc; subst hc; decide
+      · split at h
+        · cases h; simp [sfail] at hc; subst hc; decide
+        · exact hs _ _ _ _ _ h hc
+    | response p =>
+      simp only [sevent] at h
+      split at h
+      · cases h; simp [sfail] at hc; subst hc; decide
+      · exact hs _ _ _ _ _ h hc
+  refine ⟨key, ?_⟩
+  have : ∀ x ∈ serverFailureConds, definedConds.contains x = true := by decide
+  exact this c key
+
 /-! ### many sessions on one feature value -/
 
-/-- **No shared mutable state in the feature value** (regenerated from `sasl.go` on every
-run with go/ast): no variable of `newSASL` — its parameters, or anything declared beside the
-`StreamFeature` it returns — is assigned to, incremented, ranged into or address-taken inside
-the feature's `List` / `Parse` / `Negotiate` closures.  The sessions that share one
-`xmpp.SASL` / `xmpp.SASLServer` value therefore share only values that are never written,
-which is what makes the product model of `C03_sessions_independent` the right one.  (Not
-seen by the extractor: mutation through a method of a captured pointer.) -/
-theorem C03_gen_closure_no_shared_writes : Generated.C03.saslClosureWrites = some [] := by decide
+/-- **No shared mutable state behind the feature value** (regenerated from the source on every
+run with go/ast; the walk starts at the exported constructors `SASL` / `SASLServer`, follows the
+package's functions through every file and depends on no name of an unexported function, local
+or file): no variable captured by the closures of the feature value and no package-level
+variable is assigned to, incremented, ranged into, address-taken or has a method called on it
+by code that runs when a session negotiates. -/
+theorem C03_gen_no_shared_writes : Generated.C03.saslSharedWrites = some [] := by decide
 
-/-- nor is any variable of `newSASL` that is computed by a call when the feature value is
-built used inside the closures (nothing per-session is drawn once per feature value) -/
-theorem C03_gen_no_captured_call_results : Generated.C03.saslCapturedCallResults = some [] := by decide
+/-- nor does the code that builds the feature value make an object with state (a negotiator, a
+nonce, a buffer: the result of a call into a package that is not stateless) that the closures
+then use for every session -/
+theorem C03_gen_no_captured_fresh : Generated.C03.saslCapturedFresh = some [] := by decide
 
+/-- the walk did reach the two constructors, what they call, and session-time code (closures
+or functions called from them): an extractor that found nothing proves nothing -/
+theorem C03_gen_walk :
+    (Generated.C03.saslWalk.map fun w => decide (2 ≤ w.1) && decide (1 ≤ w.2)) = some true := by decide
 
-/-- **SASL is gated by the session state** (probed on every run: the harness builds the two
-feature values with the code under test and reads their masks): both `xmpp.SASL` and
-`xmpp.SASLServer` require exactly `Secure` and are prohibited exactly by `Authn` — an
-authenticated session is never put through a second exchange that could replace the identity
-the first one established, and credentials are not negotiated before the stream is secured. -/
-theorem C03_gen_feature_gates : Generated.C03.saslFeatureGates = some [(true, true), (true, true)] := by decide
-
-/-- **Sessions are independent.**  Whatever the schedule — any interleaving of the sessions'
-steps, any number of sessions — the state of session `i` is the state it reaches when run
-alone for as many quanta as the schedule gave it: it is a function of its own script only,
-nothing another session does (its credentials, its permission verdicts, the mechanism it
-chose) enters it. -/
-theorem C03_sessions_independent (cfg : List (String × Mech)) (sched : List Nat) :
+/-- the product of sessions (no store): session `i` after any schedule is session `i` run
+alone for as many quanta as the schedule gave it -/
+theorem C03_sched_product (cfg : List (String × Mech)) (sched : List Nat) :
     ∀ (ss : List SSess) (i : Nat),
     (runSched cfg ss sched)[i]? = ss[i]?.map (SSess.iter cfg (sched.count i)) := by
   induction sched with
@@ -925,31 +979,297 @@ theorem C03_sessions_independent (cfg : List (String × Mech)) (sched : List Nat
     · have : (j == i) = false := by simpa using hji
       simp [hji, this]
 
+/-- **Sessions are independent.**  The sessions of one feature value run over a store `σ` of
+whatever they could share (`Shared`: how the store enters a quantum, what a quantum leaves in
+each variable), and `W`, the variables the code writes, is what the regenerated fact says.
+Then, for EVERY such store, whatever the schedule — any interleaving, any number of sessions —
+the store is never changed and the state of session `i` is the state it reaches when run alone
+for as many quanta as the schedule gave it: a function of its own script only; nothing another
+session does (its credentials, its verdicts, the mechanism it chose) enters it.  (The theorem
+breaks when the fact reports a written variable: `C03_sessions_shared_write_fails`.) -/
+theorem C03_sessions_independent {σ : Type} (sh : Shared σ) (W : List String)
+    (hW : Generated.C03.saslSharedWrites = some W)
+    (cfg : List (String × Mech)) (sched : List Nat) (ss : List SSess) (i : Nat) :
+    (runSchedShared sh W cfg sh.init ss sched).1 = sh.init ∧
+    (runSchedShared sh W cfg sh.init ss sched).2[i]? = ss[i]?.map (SSess.iter cfg (sched.count i)) := by
+  have hnil : W = [] := by
+    have := C03_gen_no_shared_writes
+    rw [hW] at this
+    exact Option.some.inj this
+  subst hnil
+  rw [runSchedShared_nil]
+  exact ⟨rfl, C03_sched_product cfg sched ss i⟩
+
+/-- **… and that needs the fact.**  With one written variable in the store (`leakyShared`: the
+negotiator state of the last quantum survives outside the loop, the regression a cached
+`selected` / `server` or a package-level variable would be) independence fails, and in the
+worst way: a session whose peer sends a bare `<response/>` continues the exchange another
+session began and is authenticated, where alone it is refused. -/
+theorem C03_sessions_shared_write_fails :
+    ¬ (∀ (W : List String) (cfg : List (String × Mech)) (sched : List Nat) (ss : List SSess) (i : Nat),
+        ((runSchedShared leakyShared W cfg leakyShared.init ss sched).2[i]?).map sessSummary
+          = (ss[i]?.map (SSess.iter cfg (sched.count i))).map sessSummary) := by
+  intro h
+  have := h ["cur"] [("M", fun hist => if hist.length = 1 then { kind := .more } else { kind := .done })]
+    [0, 1] [SSess.start [.auth "M" .empty, .response .empty], SSess.start [.response .empty]] 1
+  revert this
+  decide
+
 /-- … so, once the schedule has given session `i` one quantum more than its script is long,
 it has finished with exactly the result of `negotiateServer` on its own script: its `Authn`
 bit, the elements written to it and the permission verdicts recorded for it are those of its
 own credentials (`C03_server_sound`, `C03_server_plain_permission` apply to it). -/
-theorem C03_sessions_outcome (cfg : List (String × Mech)) (scripts : List (List SEv))
+theorem C03_sessions_outcome {σ : Type} (sh : Shared σ) (W : List String)
+    (hW : Generated.C03.saslSharedWrites = some W)
+    (cfg : List (String × Mech)) (scripts : List (List SEv))
     (sched : List Nat) (i : Nat) (peer : List SEv) (hi : scripts[i]? = some peer)
     (hfair : peer.length + 1 ≤ sched.count i) :
-    (runSched cfg (scripts.map SSess.start) sched)[i]? = some (.finished (serverNeg cfg peer)) := by
-  rw [C03_sessions_independent, List.getElem?_map, hi]
+    (runSchedShared sh W cfg sh.init (scripts.map SSess.start) sched).2[i]?
+      = some (.finished (serverNeg cfg peer)) := by
+  rw [(C03_sessions_independent sh W hW cfg sched _ i).2, List.getElem?_map, hi]
   obtain ⟨m, hm⟩ := Nat.exists_eq_add_of_le hfair
   simp only [Option.map_some, SSess.start]
   rw [hm, SSess.iter_add, SSess.iter_serverLoop, SSess.iter_finished]
   simp [SRes.prefixed, serverNeg]
 
--- non-vacuity: two PLAIN sessions, the first refused, the second accepted, interleaved
-def sessSummary : SSess → Option (Bool × List PermCall)
-  | .finished r => some (r.authn, r.perms)
-  | .running .. => none
-
+-- non-vacuity: two PLAIN sessions, the first refused, the second accepted, interleaved, over
+-- the leaky store with nothing written (W = [])
 example :
-    (runSched [("PLAIN", plainServer fun u p _ => u == [117] && p == [112])]
+    ((runSchedShared leakyShared [] [("PLAIN", plainServer fun u p _ => u == [117] && p == [112])] none
       ([[SEv.auth "PLAIN" (.valid [0, 117, 0, 113])],
-        [SEv.auth "PLAIN" (.valid [0, 117, 0, 112])]].map SSess.start) [1, 0, 0, 1]).map sessSummary
+        [SEv.auth "PLAIN" (.valid [0, 117, 0, 112])]].map SSess.start) [1, 0, 0, 1]).2).map sessSummary
     = [some (false, [⟨[117], [113], [], false⟩]), some (true, [⟨[117], [112], [], true⟩])] := by
   decide
+
+/-! ### many initiating sessions on one `xmpp.SASL` value -/
+
+/-- **Initiating sessions are independent** — the same statement for the client library that
+negotiates all its connections with one `xmpp.SASL(…)` value: over EVERY store of what the
+sessions could share, with the written variables `W` the regenerated fact reports (the walk
+covers `negotiateClient` and everything it calls), the store is never changed and session `i`
+is the session run alone: which mechanism it selects, what it sends and whether it ends
+authenticated depend on what ITS peer advertised and sent, and on nothing else. -/
+theorem C03_client_sessions_independent {σ : Type} (sh : SharedC σ) (W : List String)
+    (hW : Generated.C03.saslSharedWrites = some W)
+    (cm : List (String × Mech)) (sched : List Nat) (ss : List CSess) (i : Nat) :
+    (runSchedSharedC sh W cm sh.init ss sched).1 = sh.init ∧
+    (runSchedSharedC sh W cm sh.init ss sched).2[i]? = ss[i]?.map (CSess.iter cm (sched.count i)) := by
+  have hnil : W = [] := by
+    have := C03_gen_no_shared_writes
+    rw [hW] at this
+    exact Option.some.inj this
+  subst hnil
+  rw [runSchedSharedC_nil]
+  exact ⟨rfl, runSchedC_product cm sched ss i⟩
+
+/-- … so a session that got two quanta more than its peer's script is long has finished with
+exactly the result of `negotiateClient` on its own advertised list and script
+(`C03_client_sound` applies to it) -/
+theorem C03_client_sessions_outcome {σ : Type} (sh : SharedC σ) (W : List String)
+    (hW : Generated.C03.saslSharedWrites = some W)
+    (cm : List (String × Mech)) (scripts : List (List String × List CEv))
+    (sched : List Nat) (i : Nat) (adv : List String) (peer : List CEv)
+    (hi : scripts[i]? = some (adv, peer)) (hfair : peer.length + 2 ≤ sched.count i) :
+    (runSchedSharedC sh W cm sh.init (scripts.map fun ap => CSess.init ap.1 ap.2) sched).2[i]?
+      = some (.finished (clientNeg cm adv peer)) := by
+  rw [(C03_client_sessions_independent sh W hW cm sched _ i).2, List.getElem?_map, hi]
+  obtain ⟨m, hm⟩ := Nat.exists_eq_add_of_le hfair
+  simp only [Option.map_some]
+  rw [hm, CSess.iter_add, CSess.iter_clientNeg, CSess.iter_finished]
+
+/-- **… and that needs the fact**: with one written variable (`leakySharedC`: the running
+exchange of the last quantum is remembered outside `negotiateClient`) a session to which the
+peer advertised NOTHING takes over another session's exchange and ends authenticated on a bare
+`<success/>`, where alone it fails with "no matching mechanisms". -/
+theorem C03_client_sessions_shared_write_fails :
+    ¬ (∀ (W : List String) (cm : List (String × Mech)) (sched : List Nat) (ss : List CSess) (i : Nat),
+        ((runSchedSharedC leakySharedC W cm leakySharedC.init ss sched).2[i]?).map csessSummary
+          = (ss[i]?.map (CSess.iter cm (sched.count i))).map csessSummary) := by
+  intro h
+  have := h ["sel"] [("M", fun hist => if hist.length = 0 then { kind := .more } else { kind := .done })]
+    [0, 1] [CSess.init ["M"] [.challenge .empty], CSess.init [] [.success .empty]] 1
+  revert this
+  decide
+
+-- non-vacuity: two sessions with different advertised lists on one value, interleaved
+example :
+    ((runSchedSharedC leakySharedC [] [("A", fun _ => { kind := .done, resp := [1] }), ("B", fun _ => { kind := .done, resp := [2] })] none
+      [CSess.init ["B"] [.success .empty], CSess.init ["B", "A"] [.failure .defined]] [1, 0, 0, 1, 1, 0]).2).map csessSummary
+    = [some (true, .none, [.auth "B" [2]]), some (false, .saslFailure, [.auth "A" [1]])] := by
+  decide
+
+/-! ### the gates of the feature and the `Authn` bit of the session -/
+
+/-- **SASL is gated by the session state, whatever the mechanisms** (probed on every run: the
+harness builds `xmpp.SASL(…)` and `xmpp.SASLServer(…)` with the code under test for every list
+of one or two of the six exported mechanisms — 84 feature values — and reads their masks):
+`Necessary = Secure`, `Prohibited = Authn` in every row. -/
+theorem C03_gen_feature_gates :
+    (Generated.C03.saslGateMasks.map fun t =>
+      t.length == 84 && t.all fun r => r.2.2.1 == saslNecessary && r.2.2.2 == saslProhibited) = some true := by
+  decide
+
+/-- **… and the gate is what decides** (probed: 48 complete sessions, both roles × every
+subset of {Secure, Authn} as initial state × every exported mechanism): the feature is offered
+(receiving side) / an `<auth/>` is written (initiating side), and `Negotiate` runs, exactly when
+the model's `allowed` says so. -/
+theorem C03_gen_gate_runs :
+    (Generated.C03.saslGateRuns.map fun t =>
+      t.length == 48 && t.all fun r =>
+        r.2.2.2.1 == allowed saslNecessary saslProhibited r.2.1 &&
+        r.2.2.2.2 == allowed saslNecessary saslProhibited r.2.1) = some true := by
+  decide
+
+/-- no exchange on a stream that is not secured, none on a session that is authenticated -/
+theorem C03_gate_closed (state : Nat)
+    (h : state &&& secureBit ≠ secureBit ∨ state &&& authnBit ≠ 0) :
+    allowed saslNecessary saslProhibited state = false := by
+  simp only [allowed, saslNecessary, saslProhibited]
+  rcases h with h | h <;> simp [h]
+
+/-- **The `Authn` bit of the session (initiating side).**  A session that did not have the bit
+and has it after the feature negotiation was secured, ran the exchange, and the exchange
+returned `Authn` without error — so everything `C03_client_sound` says holds for it. -/
+theorem C03_session_authn_bit_client (state : Nat) (cm : List (String × Mech)) (adv : List String)
+    (peer : List CEv) (hs : state &&& authnBit = 0)
+    (h : clientStateAfter saslNecessary saslProhibited state cm adv peer &&& authnBit ≠ 0) :
+    state &&& secureBit = secureBit ∧
+    (clientNeg cm adv peer).authn = true ∧ (clientNeg cm adv peer).err = .none := by
+  unfold clientStateAfter clientGated at h
+  by_cases ha : allowed saslNecessary saslProhibited state = true
+  · simp only [ha, if_true, stateAfter] at h
+    have hsec : state &&& secureBit = secureBit := by
+      simp only [allowed, saslNecessary, Bool.and_eq_true, beq_iff_eq] at ha
+      exact ha.1
+    by_cases he : (clientNeg cm adv peer).err = .none
+    · by_cases hb : (clientNeg cm adv peer).authn = true
+      · exact ⟨hsec, hb, he⟩
+      · simp [he, hb, hs] at h
+    · simp [he, hs] at h
+  · simp [ha, hs] at h
+
+/-- **The `Authn` bit of the session (receiving side)**: likewise, so `C03_server_sound` holds -/
+theorem C03_session_authn_bit_server (state : Nat) (cfg : List (String × Mech)) (peer : List SEv)
+    (hs : state &&& authnBit = 0)
+    (h : serverStateAfter saslNecessary saslProhibited state cfg peer &&& authnBit ≠ 0) :
+    state &&& secureBit = secureBit ∧
+    (serverNeg cfg peer).authn = true ∧ (serverNeg cfg peer).err = .none := by
+  unfold serverStateAfter serverGated at h
+  by_cases ha : allowed saslNecessary saslProhibited state = true
+  · simp only [ha, if_true, stateAfter] at h
+    have hsec : state &&& secureBit = secureBit := by
+      simp only [allowed, saslNecessary, Bool.and_eq_true, beq_iff_eq] at ha
+      exact ha.1
+    by_cases he : (serverNeg cfg peer).err = .none
+    · by_cases hb : (serverNeg cfg peer).authn = true
+      · exact ⟨hsec, hb, he⟩
+      · simp [he, hb, hs] at h
+    · simp [he, hs] at h
+  · simp [ha, hs] at h
+
+/-- **No second exchange**: the state a successful exchange leaves closes the gate — the
+identity the first exchange established cannot be replaced by another one. -/
+theorem C03_no_second_exchange (state : Nat) :
+    allowed saslNecessary saslProhibited (stateAfter state true .none) = false := by
+  apply C03_gate_closed
+  right
+  simp only [stateAfter, if_true, authnBit]
+  intro h
+  have h1 : ((state ||| 2) &&& 2).testBit 1 = true := by
+    have h2 : Nat.testBit 2 1 = true := by decide
+    rw [Nat.testBit_and, Nat.testBit_or, h2]; simp
+  rw [h] at h1
+  simp at h1
+
+example : clientStateAfter saslNecessary saslProhibited 1
+    [("M", fun _ => { kind := .done })] ["M"] [.success .empty] = 3 := by decide
+example : clientStateAfter saslNecessary saslProhibited 0
+    [("M", fun _ => { kind := .done })] ["M"] [.success .empty] = 0 := by decide
+
+/-! ### what the negotiator of the selected mechanism is created with -/
+
+/-- **Options of the negotiator** (probed on every run: a recording mechanism reports, from
+inside its first `Step`, the TLS state, the remote mechanism list and the credentials of its
+negotiator — both roles × connections without TLS state / with the zero state / TLS 1.2 with
+tls-unique data / TLS 1.3 × three advertised lists): every row is what the model says. -/
+theorem C03_gen_neg_opts :
+    (Generated.C03.saslNegOpts.map fun t =>
+      t.length == 16 && t.all fun r => optsRow r.1 r.2.1 r.2.2.1 == some r.2.2.2) = some true := by
+  decide
+
+/-- **… also over a real TLS layer, with and without the tee** (probed: the session runs on a
+`*tls.Conn` of an in-process handshake, both roles × TLS 1.2 / 1.3 × `StreamConfig.TeeIn/TeeOut`
+set or not): the recording mechanism ran, saw a TLS state with the version of the connection
+and the tls-unique data of that very connection. -/
+theorem C03_gen_neg_opts_tls :
+    (Generated.C03.saslNegOptsTLS.map fun t =>
+      t.length == 8 && t.all fun r =>
+        r.2.2.2 == (true, (tlsOpt (some ⟨r.2.1, []⟩)).isSome, r.2.1, true)) = some true := by
+  decide
+
+/-- **Channel binding gets the state of this connection or nothing**: the mechanism sees a TLS
+state exactly when the session's connection reports one whose version is not zero, and then it
+is that state, unchanged — on both sides; the initiating side's mechanism sees exactly the list
+the peer advertised (what a `-PLUS` capable mechanism needs to detect a downgrade). -/
+theorem C03_negotiator_options (cs : Option ConnState) (adv : List String) (l p i : String) (s : ConnState) :
+    ((clientOpts cs adv l p i).tls = some s ↔ cs = some s ∧ s.version ≠ 0) ∧
+    ((serverOpts cs l).tls = some s ↔ cs = some s ∧ s.version ≠ 0) ∧
+    (clientOpts cs adv l p i).remote = adv := by
+  have key : tlsOpt cs = some s ↔ cs = some s ∧ s.version ≠ 0 := by
+    unfold tlsOpt
+    cases cs with
+    | none => simp
+    | some c =>
+      by_cases hv : c.version = 0
+      · simp only [hv, if_true]
+        constructor
+        · intro h; cases h
+        · rintro ⟨h1, h2⟩; cases h1; exact absurd hv h2
+      · simp only [hv, if_false]
+        constructor
+        · intro h; cases h; exact ⟨rfl, hv⟩
+        · rintro ⟨h1, _⟩; exact h1
+  exact ⟨key, key, rfl⟩
+
+/-- **… through to the wire** (probed: real SCRAM-SHA-1 / -PLUS / SHA-256-PLUS clients of the
+dependency in four preference lists × four advertised lists × the four connection kinds, 64
+sessions): the mechanism named in `<auth/>` and the channel-binding flag of its client-first
+message are what `select`, `clientOpts` and the dependency's flag rule give. -/
+theorem C03_gen_scram_gs2 :
+    (Generated.C03.saslScramGs2.map fun t =>
+      t.length == 64 && t.all fun r => gs2Row r.1 r.2.1 r.2.2.1 == r.2.2.2) = some true := by
+  decide
+
+/-- **A `-PLUS` mechanism that is used binds the channel whenever the connection has a TLS
+state**: if the initiating side selects a mechanism whose name ends in `-PLUS` (so both sides
+offered it — `C03_client_mech_used`) on a connection that reports a TLS state with a version,
+its negotiator announces channel binding — never `n` or `y`, which a receiver would accept
+without binding. -/
+theorem C03_channel_binding (cs : ConnState) (hv : cs.version ≠ 0) (cm : List (String × Mech))
+    (adv : List String) (name : String) (m : Mech) (l p i : String)
+    (hsel : select cm adv = some (name, m)) (hplus : isPlus name = true) :
+    gs2Flag (clientOpts (some cs) adv l p i) name = .pUnique ∨
+    gs2Flag (clientOpts (some cs) adv l p i) name = .pExporter := by
+  have hmem : adv.contains name = true := by
+    have := List.find?_some hsel
+    simpa using this
+  simp only [gs2Flag, clientOpts, tlsOpt, hv, if_false, hplus, hmem, Bool.not_true, if_true]
+  by_cases h13 : 772 ≤ cs.version <;> simp [h13]
+
+/-- … and without a TLS state (none reported, or the zero state) nothing is bound -/
+theorem C03_channel_binding_needs_tls (cs : Option ConnState) (h : tlsOpt cs = none)
+    (adv : List String) (name l p i : String) :
+    gs2Flag (clientOpts cs adv l p i) name = .n := by
+  simp [gs2Flag, clientOpts, h]
+
+example : select [("SCRAM-SHA-1-PLUS", fun _ => ({ kind := .more } : StepRes))] ["SCRAM-SHA-1-PLUS"]
+    = some ("SCRAM-SHA-1-PLUS", fun _ => { kind := .more }) ∧ isPlus "SCRAM-SHA-1-PLUS" = true := by
+  constructor
+  · rfl
+  · decide
+
+example : (clientOpts (connOfKind 2) ["SCRAM-SHA-1-PLUS"] "u" "p" "").tls = some ⟨771, [7, 8, 9]⟩ := by decide
+example : (clientOpts (connOfKind 1) ["SCRAM-SHA-1-PLUS"] "u" "p" "").tls = none := by decide
 
 /-- a mechanism the receiving side accepts is one it advertised -/
 theorem C03_server_accepts_only_advertised (cfg : List (String × Mech)) (name n : String) (m : Mech)
